@@ -37,7 +37,17 @@ def op_place(op):
 
 
 def op_const(op):
-    return op.get("c") if op else None
+    c = op.get("c") if op else None
+    if c is not None and "str" not in c and c.get("ty") == "&str":
+        # pattern constants are valtrees: the driver prints them as a quoted literal
+        t = c.get("txt", "")
+        if len(t) >= 2 and t[0] == '"' and t[-1] == '"':
+            body = t[1:-1]
+            try:
+                c["str"] = bytes(body, "utf-8").decode("unicode_escape") if "\\" in body else body
+            except Exception:
+                c["str"] = body
+    return c
 
 
 def op_str(op):
